@@ -42,6 +42,9 @@ CHECKS = {
  "C10": ("exploration", "exhaustive enumeration of minimal rule violations x delivery routes and of all small cyclic dependency digraphs, with an independent invariant checker on every accepted project",
          "A valid family (a 3-service model with one resource of each kind, all corpus documents, the positive boundary of every agreement rule) must load and satisfy an independent checker written over the typed project. For each of 34 rule violations (7 kinds of dangling reference incl. build secrets, service: namespaces, links, volumes_from; every exclusive pair; external volume with each creation parameter; secret/config with none, each pair and all sources; every disagreeing pair; container_name with scale or replicas > 1) the violating fragment is delivered through the main file, an override file, an included file and (service-level rules) an extended base: each must yield an error and no project. Every labelled depends_on digraph on <=3 services and every 7th on 4 (all on 4 in the thorough tier) must be accepted iff it is acyclic.",
          "Trusted: props.c10consistent as the meaning of 'referentially consistent'.", "§4 C10", "E3 E5"),
+ "C11": ("exploration", "bounded-exhaustive enumeration of implicit/explicit subsets of the default-able facts x origins, differential against the all-explicit model on the real loader",
+         "20 default-able facts of the statement, each on its own service: every subset of <=3 facts left implicit and every subset of <=3 written explicitly (thorough: all 2^14 subsets of the first 14) is loaded from the main file, an override file and an included file and must equal the all-explicit model (go-cmp on the whole project). For every fact an explicit non-default value must survive (incl. a declared depends_on entry next to links / service: namespaces / volumes_from in both plain and suffixed spelling); the `default` network must be present iff some service uses it (all 8 usage patterns of 3 services).",
+         "Trusted: the explicit spelling of each default in props/c11.go, taken from the statement.", "§4 C11", "E3 E5"),
 }
 
 NOT_YET = {}
